@@ -8,6 +8,15 @@ fn main() {
     match args.get(1).map(|s| s.as_str()) {
         Some("worker") => vharness::sentry::worker_main(),
         Some("reexec") => vharness::sentry::reexec_main(),
+        Some("case") => {
+            // vcheck case <replay.json>: re-run the isolated case embedded in a replay file, in this process
+            let txt = std::fs::read_to_string(&args[2]).expect("replay file");
+            let v: serde_json::Value = serde_json::from_str(&txt).expect("json");
+            let case = v["detail"]["case"].clone();
+            std::env::set_var("VCHECK_PANIC_VERBOSE", "1");
+            let h = std::thread::Builder::new().stack_size(vharness::report::STACK).spawn(move || vharness::mon::c01::worker_case(&case)).unwrap();
+            println!("{}", serde_json::to_string_pretty(&h.join().unwrap()).unwrap());
+        }
         Some("play") => {
             // vcheck play <air-file> <n_peers> <seed> : run one random history of a hand-written script and print it
             let air = std::fs::read_to_string(&args[2]).expect("air file");
